@@ -857,6 +857,10 @@ package quickfix
 //@   requires sessfull(session)
 //@   ensures sessfull(session)
 //@   ensures session.notifyOnInSessionTime != nil ==> !closed(session.notifyOnInSessionTime) && allocated(session.notifyOnInSessionTime)
+//@   ensures session.store.#T == old(session.store.#T) || session.store.#T == 1
+//@   ensures old(ddfields()) ==> ddfields()
+//@   ensures old(ddmsgs()) ==> ddmsgs()
+//@   modifies session.State, session.pendingStop, session.stopped, session.notifyOnInSessionTime, session.toSend, session.toSend[*], session.messageOut, session.messageIn, session.sentReset, session.store.#S, session.store.#T, session.store.#R, session.application.#logouts, heap Gh.chan.closed, heap Gh.chan.sent, heap E.quickfix.Tag, heap H.quickfix.TagValue.*, fresh E.sl.uint8, fresh E.uint8, fresh H.quickfix.Message.*, fresh H.quickfix.FieldMap.*, fresh H.quickfix.tagSort.*, fresh MH.quickfix.Tag.quickfix.field, fresh H.bytes.Buffer.*, fresh H.sync.RWMutex.*, fresh H.sync.Mutex.*, fresh H.time.Time.*, fresh H.quickfix.FIXUTCTimestamp.*, fresh H.quickfix.messageRejectError.*
 
 // SendAppMessages: the queue goes to the wire only in a logged-on state; otherwise it is dropped from the wire queue
 //@ func (sm *stateMachine) SendAppMessages [C02,C08]
@@ -947,3 +951,11 @@ package quickfix
 // Timeout dispatch: the state's Timeout decides the next state; leaving a connected state goes through setState
 //@ func (sm *stateMachine) Timeout [C08,C20]
 //@   requires @sess sessfull(session) && sm == &session.stateMachine
+
+// Incoming: an inbound byte message is parsed and handed to the current state's handler (top of the inbound path)
+//@ func (sm *stateMachine) Incoming [C01,C06,C08,C09]
+//@   requires @sess sessfull(session) && sm == &session.stateMachine
+//@   requires @bound session.store.#T < MaxInt64
+//@   requires @buf m.bytes != nil
+//@   requires @dict ddhdr(session.transportDataDictionary) && ddwf(session.appDataDictionary)
+//@   requires @dictobj valid(session.transportDataDictionary) && valid(session.appDataDictionary) && (session.appDataDictionary != nil ==> valid(session.appDataDictionary.Messages))
